@@ -265,6 +265,9 @@ theorem override_run_replaces (base : FS) (hw : WF base) (hl : LinkFree base) (f
     simp only
     rw [hcall_false { st := { fs := base } } rfl]
     simp only [RenErr.isFileExists, if_true, firstPass, List.nil_append, List.reverse_cons, List.reverse_nil, secondPass]
+    -- (F20) the retry checks the deferred destination again: the tree is still the initial one
+    rw [hview, hcont]
+    simp only
     rw [hcall_false _ rfl]
     simp only [RenErr.isFileExists, if_true, resolveConflict]
     have hc : realNameRenamer.call ({ fs := base } : RealState) fdir frel p true =
@@ -339,6 +342,9 @@ theorem conflict_run_stop_ignore (base : FS) (hl : LinkFree base) (f : FileRec) 
     simp only
     rw [hcall_false { st := { fs := base } } rfl]
     simp only [RenErr.isFileExists, if_true, firstPass, List.nil_append, List.reverse_cons, List.reverse_nil, secondPass]
+    -- (F20) the retry checks the deferred destination again: the tree is still the initial one
+    rw [hview, hcont]
+    simp only
     rw [hcall_false _ rfl]
     simp only [RenErr.isFileExists, if_true, resolveConflict, List.nil_append, List.cons_append]
   have hign : execute realNameRenamer { fs := base } [⟨fdir, frel⟩] (fun _ => .path p) .ignore answers =
@@ -350,6 +356,9 @@ theorem conflict_run_stop_ignore (base : FS) (hl : LinkFree base) (f : FileRec) 
     simp only
     rw [hcall_false { st := { fs := base } } rfl]
     simp only [RenErr.isFileExists, if_true, firstPass, List.nil_append, List.reverse_cons, List.reverse_nil, secondPass]
+    -- (F20) the retry checks the deferred destination again: the tree is still the initial one
+    rw [hview, hcont]
+    simp only
     rw [hcall_false _ rfl]
     simp only [RenErr.isFileExists, if_true, resolveConflict, List.nil_append, List.cons_append, secondPass]
   rw [hstop, hign]
